@@ -16,9 +16,9 @@ from vlib import spec as S
 NAME_POOL = {
     "Source": ["Vbat", "12V in", "USB_5V", "LiPo 3.7V", "-48V bus", "Vin"],
     "Converter": ["Buck", "Boost 5V", "DC-DC", "Buck 1.8V", "SMPS"],
-    "LinReg": ["LDO", "LDO 3.3V", "Vreg+", "Reg"],
+    "LinReg": ["LDO", "LDO 3.3V", "Vreg+", "Reg", "System LDO"],
     "PLoad": ["MCU", "FPGA core", "Radio", "P.load"],
-    "ILoad": ["Sensor", "LED", "IO bank", "I-load"],
+    "ILoad": ["Sensor", "LED", "IO bank", "I-load", "Subsystem ctl", "System monitor"],
     "RLoad": ["Heater", "Pull-up", "R.load", "Bleeder"],
     "RLoss": ["Trace", "Cable", "R_sense", "Shunt"],
     "VLoss": ["Diode", "Fuse", "Ferrite", "V-loss"],
